@@ -22,7 +22,7 @@
    never remembered as a load, so once everything is readable again the lazy index answers like the
    fully loaded one, whatever was accessed while it was not. *)
 From Coq Require Import NArith List Bool.
-From DvcData Require Import Base.Val Model.IndexLoad Proofs.IndexLoadBase Proofs.IndexLoadProofs Proofs.IndexLoadMore Proofs.IndexLoadThms Proofs.IndexLoadExplicit Proofs.IndexLoadDecide Proofs.IndexLoadFaults Gen.IdxLoad Proofs.IndexLoadTie.
+From DvcData Require Import Base.Val Model.IndexLoad Proofs.IndexLoadBase Proofs.IndexLoadProofs Proofs.IndexLoadMore Proofs.IndexLoadThms Proofs.IndexLoadExplicit Proofs.IndexLoadDecide Proofs.IndexLoadFaults Gen.IdxLoad Proofs.IndexLoadTie Model.FileLoad Proofs.FileLoadProofs.
 Import ListNotations.
 Open Scope N_scope.
 
@@ -195,3 +195,55 @@ Theorem C17_entry_constructors_are_source :
   (forall r, e_hash (file_entry r) = Some (r_hash r)).
 Proof. exact entry_constructors_are_source. Qed.
 Print Assumptions C17_entry_constructors_are_source.
+
+(* ---- the second loading route: a directory entry backed by a FileStorage (Model/FileLoad.v) ---------------
+   An unloaded directory entry at key k served by FileStorage(prefix p, path = root of the workspace w) is
+   loaded from the files: what is stored is EXACTLY the sub-tree below k of the explicit index over the same
+   workspace (build_entries with every key put under p) - for every outcome of every key. *)
+Theorem C17_file_storage_transparent :
+  forall (p : key) (w : ws) (k : key),
+    match load_file p w k with
+    | FlAssert => is_prefix p k = false
+    | FlMissing => exists rel, k = p ++ rel /\ ws_exists w rel = false
+    | FlOk l => l = under k (explicit_of p w)
+    end.
+Proof. exact load_file_total. Qed.
+Print Assumptions C17_file_storage_transparent.
+
+Theorem C17_file_storage_loads :
+  forall (p : key) (w : ws) (rel : key),
+    ws_exists w rel = true ->
+    load_file p w (p ++ rel) = FlOk (under (p ++ rel) (explicit_of p w)).
+Proof. exact load_file_is_explicit_subtree. Qed.
+Print Assumptions C17_file_storage_loads.
+
+(* nothing outside the loaded directory is written; every file and directory below it is, once, where the
+   workspace puts it *)
+Theorem C17_file_storage_only_below :
+  forall p w k l, load_file p w k = FlOk l -> forall k' e, In (k', e) l -> strict_prefix k k' = true.
+Proof. exact load_file_only_below. Qed.
+Print Assumptions C17_file_storage_only_below.
+
+Theorem C17_file_storage_complete :
+  forall p w rel n,
+    ws_exists w rel = true -> In n w -> strict_prefix rel (f_key n) = true ->
+    exists l, load_file p w (p ++ rel) = FlOk l /\ In (p ++ f_key n, fs_entry n) l.
+Proof. exact load_file_complete. Qed.
+Print Assumptions C17_file_storage_complete.
+
+Theorem C17_file_storage_sound :
+  forall p w k l k' e,
+    load_file p w k = FlOk l -> In (k', e) l ->
+    exists n, In n w /\ k' = p ++ f_key n /\ e = fs_entry n.
+Proof. exact load_file_sound. Qed.
+Print Assumptions C17_file_storage_sound.
+
+(* the storage prefix is a presentation detail: serving the sub-tree d directly (prefix p ++ d, path/d) loads
+   the same entries as serving it from above (prefix p, path) *)
+Theorem C17_file_storage_prefix_irrelevant :
+  forall p d w rel l1 l2,
+    load_file (p ++ d) (subtree d w) (p ++ d ++ rel) = FlOk l1 ->
+    load_file p w (p ++ d ++ rel) = FlOk l2 ->
+    l1 = l2.
+Proof. exact load_file_prefix_irrelevant. Qed.
+Print Assumptions C17_file_storage_prefix_irrelevant.
